@@ -4,7 +4,7 @@
   model on this one input (`decide` / `rfl`), i.e. a test, not a theorem about all inputs.
   Proof-only file (not imported by the judge).  Core only.
 -/
-import OVM.IO.Ovmb.RoundTripLimits
+import OVM.IO.Ovmb.RoundTripWriter
 namespace OVM.Ovmb.Example
 open OVM.Ovmb OVM.Gen.Ovmb
 
@@ -23,9 +23,6 @@ set_option maxRecDepth 20000 in
 theorem tetFile_length : (encode tetFile).length = 440 := by decide
 
 theorem tetFile_size : SizeOk tetFile := by unfold SizeOk; rw [tetFile_length]; decide
-
-theorem tetFile_faces : ModeFits tetFile.faces := modeFits_of_count _ (by decide)
-theorem tetFile_cells : ModeFits tetFile.cells := modeFits_of_count _ (by decide)
 
 /-- a polyhedral target mesh without topology check -/
 def polyCfg : Cfg := ⟨.poly, false, fun _ _ => .asIs⟩
